@@ -724,23 +724,37 @@ def rec_queue(ck, fm: FuncModel, loop):
     if not pops or not pushes or any(_calls_on(n, X, {"extend", "update", "insert", "extendleft"}) for n in nodes):
         return None
     fp = pops[0]
-    if not (fp.kind == "stmt" and isinstance(fp.ast, ast.Assign) and isinstance(fp.ast.targets[0], ast.Name)):
+    if not (fp.kind == "stmt" and isinstance(fp.ast, ast.Assign)):
         return None
-    cur = fp.ast.targets[0].id
+    tg = fp.ast.targets[0]
     tb = _tbranch(fm, loop)
     hdr = fm.cfg.loop_header[loop]
+    if isinstance(tg, ast.Name):
+        slots = [(tg.id, None)]
+    elif isinstance(tg, ast.Tuple) and all(isinstance(t_, ast.Name) for t_ in tg.elts):
+        # frames (node, extra, ..): the node is the component for which every push can be justified
+        slots = [(t_.id, k) for k, t_ in enumerate(tg.elts)]
+        if any(not (isinstance(e, ast.Tuple) and len(e.elts) == len(tg.elts)) for _, e in pushes):
+            return None
+    else:
+        return None
     if hdr.id in _within(fm, loop, tb, {p.id for p in pops}):
         return False, "an iteration can end without taking an element out of the queue"
-    why, kinds = [], set()
-    for n, e in pushes:
-        j = _justify_push(ck, fm, loop, loop, cur, n, e, "elem")
-        if j[0]:
-            kinds.add(j[1])
-        else:
-            why.append(f"line {n.lineno}: pushing `{text(e)[:40] if e is not None else '?'}` -- {j[1]}")
-    if why:
-        return False, "; ".join(why[:3])
-    return True, f"queue `{X}`: each iteration removes an element; every push justified by {', '.join(sorted(kinds))}"
+    first = None
+    for cur, k in slots:
+        why, kinds = [], set()
+        for n, e in pushes:
+            e_ = e if k is None else e.elts[k]
+            j = _justify_push(ck, fm, loop, loop, cur, n, e_, "elem")
+            if j[0]:
+                kinds.add(j[1])
+            else:
+                why.append(f"line {n.lineno}: pushing `{text(e_)[:40] if e_ is not None else '?'}` -- {j[1]}")
+        if not why:
+            return True, f"queue `{X}`: each iteration removes an element; every push justified by {', '.join(sorted(kinds))}"
+        if first is None:
+            first = why
+    return False, "; ".join((first or [])[:3])
 
 
 # ---- flag-controlled fixpoints -------------------------------------------------------------------
